@@ -529,6 +529,42 @@ theorem from_join_is_joinPure (db : Db) (k : JoinKind) (l r : From) (on : Option
           simp only [isTrueOn, holds] at this
           exact this
 
+/-- the query a derived table `(SELECT items FROM f [WHERE w]) AS r` stands for -/
+def derivedQuery (f : From) (w : Option Expr) (items : List Expr) : Select :=
+  { distinct := false, from_ := f, where_ := w, groupBy := [], aggs := [], items := some items, orderBy := [],
+    limit := none, offset := none }
+
+/-- a derived table in FROM supplies exactly the rows its query returns (errors included), under the schema its
+    select list infers -/
+theorem derived_table_is_its_query (nullsFirst : Bool) (db : Db) (f : From) (w : Option Expr) (items : List Expr) :
+    evalFrom .none db (.derived f w items) = evalSelect .none nullsFirst db (derivedQuery f w items) ∧
+    (From.derived f w items).tys db = items.map (inferTy (f.tys db)) := by
+  refine ⟨?_, rfl⟩
+  simp only [evalFrom, evalSelect, derivedQuery, produce, Select.isAgg, projectAll, List.isEmpty_nil, Bool.not_true,
+    Bool.or_self, Bool.not_false, if_true, finish, limitOffset, Option.getD_none, List.drop_zero,
+    Bool.false_eq_true, if_false]
+  cases evalFrom {} db f with
+  | error e => rfl
+  | ok rows =>
+    simp only []
+    cases applyWhere {} (f.tys db) w rows with
+    | error e => rfl
+    | ok kept =>
+      simp only []
+      cases mapE (projectRow {} (f.tys db) items) kept <;> rfl
+
+/-- `SELECT * FROM (query) AS r` is the query -/
+theorem derived_star_transparent (nullsFirst : Bool) (db : Db) (f : From) (w : Option Expr) (items : List Expr) :
+    evalSelect .none nullsFirst db
+      { distinct := false, from_ := .derived f w items, where_ := none, groupBy := [], aggs := [], items := none,
+        orderBy := [], limit := none, offset := none } =
+    evalSelect .none nullsFirst db (derivedQuery f w items) := by
+  rw [← (derived_table_is_its_query nullsFirst db f w items).1]
+  simp only [evalSelect, applyWhere, produce, Select.isAgg, projectAll, List.isEmpty_nil, Bool.not_true,
+    Bool.or_self, Bool.not_false, if_true, finish, limitOffset, Option.getD_none, List.drop_zero,
+    Bool.false_eq_true, if_false]
+  cases evalFrom {} db (.derived f w items) <;> rfl
+
 /-- SELECT = FROM, then WHERE, then projection or grouping, then ORDER BY, DISTINCT, OFFSET/LIMIT -/
 theorem select_pipeline (nullsFirst : Bool) (db : Db) (q : Select) (out : List Row)
     (h : evalSelect .none nullsFirst db q = .ok out) :
